@@ -48,6 +48,10 @@ def make(name: str, *args):
 
     if name == "C04":
         return ConcatScenario("C04")
+    if name == "C03":
+        from .setter import SetterScenario
+
+        return Mix("C03", [(3, SetterScenario()), (1, ConcatScenario("C03"))])
     if name == "C10":
         from .readonly import ReadOnlyScenario
 
